@@ -372,6 +372,13 @@ func runInBubble(spec *RunSpec, res *RunResult) {
 			case <-hangCh:
 				hang = true
 			}
+			if hang {
+				select {
+				case <-clientsDone: // finished at the very instant of the watchdog: not a hang
+					hang = false
+				default:
+				}
+			}
 			if !hang && w.CrashCount() > crashesBefore {
 				crashed = true
 			}
